@@ -29,7 +29,7 @@ import tempfile
 import threading as _rt
 from typing import Any, Callable, Dict, List, Optional
 
-SRC = os.environ.get("VF_PYRTMA_SRC") or "/repo/src"
+SRC = os.environ.get("VF_PYRTMA_SRC") or (__import__("os").environ.get("VF_REPO", "/repo") + "/src")
 if SRC != "/repo/src":
     # verification of a candidate repair on a scratch copy of the package: make sure that copy is the one imported
     for _k in [k for k in sys.modules if k == "pyrtma" or k.startswith("pyrtma.")]:
